@@ -78,6 +78,105 @@ where
         self.data[index] = v;
         self.len += 1;
     }
+    pub fn from_vec(v: Vec<A::Item>) -> Self {
+        Self::from_slice(&v)
+    }
+    pub fn from_slice(v: &[A::Item]) -> Self {
+        let mut s = Self::new();
+        let mut i = 0;
+        while i < v.len() {
+            s.push(v[i]);
+            i += 1;
+        }
+        s
+    }
+    pub fn capacity(&self) -> usize {
+        CAP
+    }
+    pub fn reserve(&mut self, _n: usize) {}
+    pub fn shrink_to_fit(&mut self) {}
+    pub fn pop(&mut self) -> Option<A::Item> {
+        if self.len == 0 {
+            None
+        } else {
+            self.len -= 1;
+            Some(self.data[self.len])
+        }
+    }
+    pub fn truncate(&mut self, n: usize) {
+        if n < self.len {
+            self.len = n;
+        }
+    }
+    pub fn remove(&mut self, index: usize) -> A::Item {
+        assert!(index < self.len, "removal index out of bounds");
+        let v = self.data[index];
+        let mut i = index;
+        while i + 1 < self.len {
+            self.data[i] = self.data[i + 1];
+            i += 1;
+        }
+        self.len -= 1;
+        v
+    }
+    pub fn swap_remove(&mut self, index: usize) -> A::Item {
+        assert!(index < self.len, "removal index out of bounds");
+        let v = self.data[index];
+        self.len -= 1;
+        self.data[index] = self.data[self.len];
+        v
+    }
+    pub fn retain<F: FnMut(&mut A::Item) -> bool>(&mut self, mut f: F) {
+        let mut w = 0;
+        let mut r = 0;
+        while r < self.len {
+            let mut x = self.data[r];
+            if f(&mut x) {
+                self.data[w] = x;
+                w += 1;
+            }
+            r += 1;
+        }
+        self.len = w;
+    }
+    pub fn dedup(&mut self)
+    where
+        A::Item: PartialEq,
+    {
+        let mut w = 0;
+        let mut r = 0;
+        while r < self.len {
+            if w == 0 || self.data[w - 1] != self.data[r] {
+                self.data[w] = self.data[r];
+                w += 1;
+            }
+            r += 1;
+        }
+        self.len = w;
+    }
+    pub fn extend_from_slice(&mut self, v: &[A::Item]) {
+        let mut i = 0;
+        while i < v.len() {
+            self.push(v[i]);
+            i += 1;
+        }
+    }
+    pub fn insert_from_slice(&mut self, index: usize, v: &[A::Item]) {
+        let mut i = 0;
+        while i < v.len() {
+            self.insert(index + i, v[i]);
+            i += 1;
+        }
+    }
+    pub fn into_vec(self) -> Vec<A::Item> {
+        self.to_vec()
+    }
+    pub fn first(&self) -> Option<&A::Item> {
+        self.as_slice().first()
+    }
+    pub fn last(&self) -> Option<&A::Item> {
+        self.as_slice().last()
+    }
     pub fn as_slice(&self) -> &[A::Item] {
         &self.data[..self.len]
     }
@@ -153,4 +252,71 @@ where
     fn into_iter(self) -> Self::IntoIter {
         self.as_slice().iter()
     }
+}
+
+impl<A: Array> Extend<A::Item> for SmallVec<A>
+where
+    A::Item: Copy,
+{
+    fn extend<I: IntoIterator<Item = A::Item>>(&mut self, iter: I) {
+        for x in iter {
+            self.push(x);
+        }
+    }
+}
+impl<A: Array> core::iter::FromIterator<A::Item> for SmallVec<A>
+where
+    A::Item: Copy,
+{
+    fn from_iter<I: IntoIterator<Item = A::Item>>(iter: I) -> Self {
+        let mut s = Self::new();
+        for x in iter {
+            s.push(x);
+        }
+        s
+    }
+}
+impl<A: Array> From<Vec<A::Item>> for SmallVec<A>
+where
+    A::Item: Copy,
+{
+    fn from(v: Vec<A::Item>) -> Self {
+        Self::from_vec(v)
+    }
+}
+impl<'a, A: Array> From<&'a [A::Item]> for SmallVec<A>
+where
+    A::Item: Copy,
+{
+    fn from(v: &'a [A::Item]) -> Self {
+        Self::from_slice(v)
+    }
+}
+impl<A: Array> PartialEq for SmallVec<A>
+where
+    A::Item: Copy + PartialEq,
+{
+    fn eq(&self, other: &Self) -> bool {
+        self.as_slice() == other.as_slice()
+    }
+}
+impl<A: Array> Eq for SmallVec<A> where A::Item: Copy + Eq {}
+impl<A: Array> IntoIterator for SmallVec<A>
+where
+    A::Item: Copy,
+{
+    type Item = A::Item;
+    type IntoIter = std::vec::IntoIter<A::Item>;
+    fn into_iter(self) -> Self::IntoIter {
+        self.to_vec().into_iter()
+    }
+}
+/// `smallvec![a, b, c]`
+#[macro_export]
+macro_rules! smallvec {
+    ($($x:expr),* $(,)?) => {{
+        let mut s = $crate::SmallVec::new();
+        $( s.push($x); )*
+        s
+    }};
 }
